@@ -463,9 +463,12 @@ class FieldStorage:
 
     @classmethod
     def parse_header(cls, s: str):
-        htype, rest = s.split(':', 1)
+        htype, colon, rest = s.partition(':')
         opt_iter = cls._patt.finditer(rest)
-        hvalue = next(opt_iter).group(1).strip()
+        first = next(opt_iter, None)
+        if not colon or first is None:
+            raise BodyParsingError(f'Malformed multipart/formdata, invalid part header: {s}')
+        hvalue = first.group(1).strip()
         dct = {}
         for it in opt_iter:
             k = it.group(1).strip()
